@@ -107,8 +107,18 @@ func corrupt(st gen.Step, idx int, schema models.IndexSchema, m *model.Collectio
 	out.Points[idx].Doc[prop] = bad
 	// an update of an id that is not stored is skipped before any index sees it
 	if st.Kind == "update" {
-		if _, ok := m.Docs[out.Points[idx].Id]; !ok {
+		id := out.Points[idx].Id
+		if _, ok := m.Docs[id]; !ok {
 			return out, false
+		}
+		// a batch may name the id again: the indices see the net change, so the wrongly typed value
+		// only counts if no later occurrence replaces or removes it
+		for _, later := range out.Points[idx+1:] {
+			if later.Id == id {
+				if _, touches := later.Doc[prop]; touches {
+					return out, false
+				}
+			}
 		}
 	}
 	return out, true
